@@ -38,6 +38,7 @@ CFG = {
         "Swat4.C05.inv_reachable",
         "Swat4.C05.keepalive_foreign_instance_rejected",
         "Swat4.C05.removal_foreign_instance_rejected",
+        "Swat4.C05.instances_change_only_for_presented_id",
         "Swat4.C05.parseAddr_ok",
         "Swat4.C05.facts_ok",
     ],
@@ -62,7 +63,7 @@ CFG = {
         "miniredis as the meaning of the Redis commands; world.Dump as the canonical observation of the keyspace",
     ],
     "manifest": {
-        "text": "Lean theorem reporter_touches_only_source_ip: for every state satisfying the store invariant, every payload and source, each server row that differs before/after Heartbeat.dispatch has an address with the source IP; proved per repository call (Rep.Safe): report writes addr.New(sourceIP, hostport), renew writes inst.Addr only after the IP check, remove only (sourceIP, hostport); lifted to histories (C05_main, C05_steps, inv_reachable); keepalive/removal with a foreign instance id are rejected with the state unchanged.",
+        "text": "Lean theorem reporter_touches_only_source_ip: for every state satisfying the store invariant, every payload and source, each server row that differs before/after Heartbeat.dispatch has an address with the source IP; proved per repository call (Rep.Safe): report writes addr.New(sourceIP, hostport), renew writes inst.Addr only after the IP check, remove only (sourceIP, hostport); lifted to histories (C05_main, C05_steps, inv_reachable); keepalive/removal with a foreign instance id are rejected with the state unchanged (with a concrete two-party state satisfying all hypotheses of the removal theorem); instances_change_only_for_presented_id: the instance table changes only at the id a heartbeat-type datagram presents - which does NOT exclude that a report from A rebinds an id currently bound to B's server (documented by an example: B's record is untouched, B's next keepalive is rejected until B reports again).",
         "level_note": "Trusted: Lean kernel; axioms propext, Quot.sound, Classical.choice; the differential run as evidence that Model/Heartbeat.lean + UseCases/Reporter.lean behave like the Go code (full dump after every datagram); generated Facts.lean.",
         "technique": "Lean 4 proof (frame condition per repository call + store invariant, induction over histories) + differential correspondence with a frame oracle on the implementation's dumps",
         "design_ref": "DESIGN.md §5 C05",
